@@ -26,8 +26,8 @@ Inductive case :=
 | CRavel (shape idx : list Z) (expect : Z)
 (* _default_cog_opts(blocksize, shape=wh_(w, h)) -> (blockxsize, blockysize) *)
 | CBlock (blocksize : option Z) (w h : Z) (expect : Z * Z)
-(* overview factors found in the written file *)
-| COvr (req : option (list Z)) (w h : Z) (expect : list Z)
+(* (height, width) of every overview found in the written file *)
+| COvr (req : option (list Z)) (w h : Z) (expect : list (Z * Z))
 | CNodata (kw attr : option Z) (expect : option Z)
 (* check_write_path on a scratch directory; paths observed afterwards *)
 | CCheckPath (s : fs) (p : Z) (overwrite : bool) (paths : list Z) (expect_fs : list (Z * Z)) (expect : res unit)
@@ -42,7 +42,7 @@ Definition check (c : case) : bool :=
   | CLayout s g ya e => res_eqb (pair_eqb z3_eqb (list_eqb Z.eqb)) (write_layout s g ya) e
   | CRavel s i e => ravel s i =? e
   | CBlock b w h e => zz_eqb (default_cog_block b w h) e
-  | COvr r w h e => list_eqb Z.eqb (overview_levels r w h) e
+  | COvr r w h e => list_eqb zz_eqb (overview_shapes r w h) e
   | CNodata k a e => opt_eqb Z.eqb (nodata_of k a) e
   | CCheckPath s p ow paths efs e =>
       let '(s', r) := check_write_path s p ow in
